@@ -253,6 +253,42 @@ def same_tensor(a, b):
     return bool(torch.equal(a.nan_to_num(12345.0, 23456.0, -34567.0), b.nan_to_num(12345.0, 23456.0, -34567.0)))
 
 
+EDIT_KINDS = ("row0", "const", "incr", "oov", "neg")
+
+
+def scribble(t, kind, V=2):
+    """The caller edits a tensor it was handed, in place (it owns it). Token tensors: `row0` =
+    every row becomes a copy of the first one (duplicates), `const` = every cell V-1, `incr` =
+    every cell + 1, `oov` = every cell V + 1, `neg` = every cell -1; score tensors: the first
+    row everywhere / 0 / -1 / NaN / -inf; boolean tensors are negated. An expanded tensor
+    (stride 0: torch refuses most in-place operations on it) is written through the view of
+    its first slice along every expanded dimension, as `t[:, 0]` would be. -> the tensor as it
+    is after the edit (a copy, for the later comparison "what was handed out stays the
+    caller's")."""
+    import torch
+    w = t
+    for d in range(t.dim()):
+        if t.size(d) > 1 and t.stride(d) == 0:
+            w = w.narrow(d, 0, 1)
+    if w.numel():
+        if w.dtype == torch.bool:
+            w.logical_not_()
+        elif kind == "row0" and w.dim() >= 1:
+            w.copy_(w[:1].clone().expand_as(w))
+            if w.size(0) == 1:
+                w.add_(1)
+        elif w.is_floating_point():
+            if kind == "incr":
+                w.sub_(1)
+            else:
+                w.fill_({"const": 0.0, "oov": float("nan"), "neg": float("-inf")}.get(kind, 1.0))
+        elif kind == "incr":
+            w.add_(1)
+        else:
+            w.fill_({"const": V - 1, "oov": V + 1, "neg": -1}.get(kind, V + 1))
+    return t.clone()
+
+
 def state_snapshot(d):
     """what a caller can see of a state dictionary: its keys and the values of its tensors"""
     return {k: (v.dtype, tuple(v.shape), v.clone()) for k, v in d.items()}
@@ -305,6 +341,12 @@ def make_lm(V, tables, default, eos=None, shared=False, dtype=None, layout=None,
         def __init__(self):
             super().__init__(V)
             self.calls = 0
+            self.handed = []   # (tensor handed to the caller, its content then)
+
+        def rows_modified(self):
+            """how many of the score tensors this model returned were edited afterwards (they
+            are the model's: it may hand out views of its own parameters)"""
+            return sum(1 for t, c in self.handed if not same_tensor(t, c))
 
         def update_input(self, prev, hist):
             if "state" in prev:
@@ -372,7 +414,8 @@ def make_lm(V, tables, default, eos=None, shared=False, dtype=None, layout=None,
                 nxt = dict(prev)
                 nxt["state"] = state
                 nxt["at"] = at
-            rows = torch.tensor(out, dtype=torch_dtype(dtype)).view(N, V)
-            return relayout(rows, layout), nxt
+            rows = relayout(torch.tensor(out, dtype=torch_dtype(dtype)).view(N, V), layout)
+            self.handed.append((rows, rows.clone()))
+            return rows, nxt
 
     return TableLM()
